@@ -290,7 +290,8 @@ def run(ctx, cases, ref=False):
         if diff and not structure_diff(md["printed"]):
             dist["matches decimal-input model only"] += 1
             diff = []
-        if diff:
+        if diff and dist["alternative-input model runs"] < 60:
+            dist["alternative-input model runs"] += 1
             # a rounding tie of the pivot that binary division resolves the other way changes
             # the structure (carry or no carry): the implementation must then agree with the
             # exact algorithm on an input within 2^-40 (relative) of the actual one
